@@ -1,11 +1,15 @@
 // C06 — no signature leaves relic without an audit record.
 //
 // (a) fault enumeration (mc.Explore, deviation-bounded): request histories x a
-//     fault choice at every audit-sink operation (the audit file lives in the
-//     in-memory vos file system: overlay "os" -> verif/shim/vos in lib/audit);
+//
+//	fault choice at every audit-sink operation (the audit file lives in the
+//	in-memory vos file system: overlay "os" -> verif/shim/vos in lib/audit);
+//
 // (b) schedule exploration (mc.Sched, preemption-bounded): 2-3 concurrent /sign
-//     handlers on one server, scheduling points at every hooked mutex, token and
-//     audit-file operation;
+//
+//	handlers on one server, scheduling points at every hooked mutex, token and
+//	audit-file operation;
+//
 // (c) the standalone command path with the same sink faults.
 package main
 
